@@ -235,7 +235,7 @@ UNIT = {
         'o:=:atomic<bool>': '(*$o = $0)', 'o:=:std::atomic<bool>': '(*$o = $0)',
     },
     'prelude': '#include "models/base.h"\n#include "models/engine.h"\n',
-    'after_structs': '#include "models/engine_after.h"\n',
+    'after_structs': '#include "models/engine_after.h"\n#include "models/engine_models.h"\n',
     'stubs': {
         'DependencyKeyIDs_cleanSingleUseDependencies': {
             'params': 'struct DependencyKeyIDs *self', 'requires': ['__CPROVER_is_fresh(self, sizeof(*self))'],
